@@ -12,6 +12,7 @@
 # See the License for the specific language governing permissions and
 # limitations under the License.
 
+from types import FunctionType
 from typing import Callable, Dict
 
 from opacus.optimizers import DPOptimizer
@@ -46,11 +47,15 @@ class _GradClipScheduler:
     def state_dict(self) -> Dict:
         """Returns the state of the scheduler as a :class:`dict`.
         It contains an entry for every variable in self.__dict__ which
-        is not the optimizer.
+        is not the optimizer. Plain functions and lambdas (the schedule of the Lambda
+        schedulers) are not saved, as in ``torch.optim.lr_scheduler.LambdaLR``: they cannot
+        be pickled, and the scheduler the state is loaded into has its own.
 
         """
         return {
-            key: value for key, value in self.__dict__.items() if key != "optimizer"
+            key: value
+            for key, value in self.__dict__.items()
+            if key != "optimizer" and not isinstance(value, FunctionType)
         }
 
     def load_state_dict(self, state_dict: Dict):
